@@ -155,6 +155,24 @@ def run_shards(exe, args, nshards=NCPU, timeout=None, extra_env=None, pin=False,
     return res
 
 
+def run_one_shard(exe, args, shard, nshards=NCPU, timeout=3600, extra_env=None, wrapper=None, upto=None):
+    """Re-runs one shard exactly as run_shards did (same batches, same order), optionally only up to case id `upto`."""
+    res = Result()
+    e = env()
+    if extra_env:
+        e.update(extra_env)
+    cmd = (wrapper or []) + [exe] + args + ["--shard", str(shard), "--nshards", str(nshards)]
+    if upto is not None:
+        cmd += ["--to", str(upto + 1)]
+    try:
+        r = subprocess.run(cmd, stdout=subprocess.PIPE, stderr=subprocess.PIPE, env=e, timeout=timeout)
+        parse_protocol(r.stdout.decode("latin-1"), res)
+    except subprocess.TimeoutExpired:
+        pass
+    cleanup_scratch()
+    return res
+
+
 def cleanup_scratch():
     """removes scratch directories of harness processes that no longer exist (killed on timeout)"""
     import glob, shutil
